@@ -180,9 +180,21 @@ PROPS = {
     "C14": dict(
         units=["mux"],
         level="proof",
-        level_text="(being extended) header codec bijection, inbound dispatch with permits on the real text",
-        level_note="see DESIGN.md",
-        technique="contract-based deductive verification (Verus on extracted real functions; bit-vector lemmas for the header)",
+        level_text="Deductive proof (Verus) over the real text of mux/header.rs (all functions), Mux::process_inbound_frames, "
+                   "ReadStream::read_exact, WriteStream::write_all, WriteReusableStream::send_data, ReadReusableStream::recv_open, "
+                   "Config::verify: the 16-bit header codec is a bijection on valid (frame kind, stream kind, id) triples (bit-vector lemmas) "
+                   "and frame_kind() has FOUR values all of which the dispatcher handles; an inbound frame is delivered to exactly the "
+                   "stream its header names on the side opposite to the sender's, or the run ends with a protocol error if the id is out of "
+                   "range; every delivered frame owns 1 frame-count permit and a DATA frame owns as many buffer-size permits as it has bytes, "
+                   "acquired before its buffer is allocated; DATA is split into pieces of min(remaining, read_frame_size) that exhaust the "
+                   "announced length (no underflow); read_exact only appends, in order, exactly the bytes it removes from the frames and never "
+                   "panics given what the dispatcher can deliver; a new transient stream starts from a clean state (no cached bytes, CLOSE "
+                   "flag reset); write_all/send_data emit DATA frames of at most write_frame_size <= 65535 bytes, so the length prefix is exact.",
+        level_note="Not decided: ReusableStream::run (three-way OPEN, lock hand-over between transient streams, CLOSE on drop) -- concurrent tasks "
+                   "per stream id -- and therefore the count of simultaneously open transient streams; spawn_streams id allocation; the "
+                   "writer task's `as u16` (covered only through Config::verify's bound). read_frame_size > 0 is a precondition on the local "
+                   "configuration. Channels/semaphores are opaque handles with documented behaviour (A4).",
+        technique="contract-based deductive verification (Verus on extracted real functions; bit-vector lemmas; ghost permit accounting on the channel stub)",
         design_ref="DESIGN.md §5 C14",
         assumptions=[],
     ),
@@ -233,6 +245,25 @@ PROPS = {
                    "the committee with quota 0 (PoolWatch::new call sites).",
         technique="contract-based deductive verification (Verus on extracted real functions and mechanically lifted closures)",
         design_ref="DESIGN.md §5 C12",
+        assumptions=[],
+    ),
+    "C15": dict(
+        units=["limiter"],
+        level="proof",
+        level_text="Limiter state machine. Deductive proof (Verus) over the real text of State::advance, duration_or_max, usize_or_max, "
+                   "Limiter::acquire, Permit::drop and of the two closures that write the limiter state (lifted mechanically): the invariant "
+                   "reserved <= permits <= burst is preserved by every state write; advance never moves the limiter clock backwards and adds "
+                   "exactly one permit per elapsed tick, saturating at the burst, without overflow for any clock value; the tick `need` that "
+                   "acquire computes before sleeping makes the reservation grantable (can_grant), every Permit::drop in between preserves "
+                   "that, and the final critical section re-establishes the invariant; drop never underflows; acquire writes the state exactly "
+                   "once, after its last cancellation point (assertion at every `?`: a cancelled wait has written nothing); the returned "
+                   "permit carries 0 permits iff the refresh rate is infinite.",
+        level_note="Not decided: the window bound b + T/r + 1 as a theorem over transition sequences (the per-transition facts it needs are "
+                   "proved), arrival-order service (tokio's fair mutex), and the per-connection RPC consequence (composition through the mux, "
+                   "concurrent). Rely condition: between the wait and the final section only Permit::drop runs (acquires are serialised by "
+                   "the acquire mutex, A4). A6: the i128 tick counter stays below 2^126. time::Duration::new / tokio watch as documented.",
+        technique="contract-based deductive verification (Verus on extracted real functions and lifted closures; rely predicate can_grant)",
+        design_ref="DESIGN.md §5 C15",
         assumptions=[],
     ),
 }
